@@ -43,6 +43,7 @@ def _global(frame, event, arg):
         if not _interesting(code.co_filename):
             return None
         if st['spec'].get('granularity') == 'opcode':
+            frame.f_trace = st['local']          # (3.12: opcode events are only generated if f_trace is already set)
             frame.f_trace_opcodes = True
         return st['local']
     if entry:
@@ -72,6 +73,7 @@ def _global(frame, event, arg):
         with _lock:
             _armed[ident] = st
         if spec.get('granularity') == 'opcode':
+            frame.f_trace = st['local']
             frame.f_trace_opcodes = True
         return st['local']
     return None
